@@ -377,7 +377,7 @@ func (s *sroa) run() int {
 			case b.ptr && b.addrOf && !src.ptr, b.ptr && !b.addrOf && src.ptr:
 				b.cell = src.cell
 			case !b.ptr && !src.ptr:
-				b.cell = &cell{st: src.cell.st, root: b}
+				b.cell = &cell{st: src.cell.st, typ: src.cell.typ, root: b}
 				b.cell.copies = append(b.cell.copies, src.cell)
 				src.cell.copies = append(src.cell.copies, b.cell)
 			default:
@@ -432,6 +432,27 @@ func (s *sroa) run() int {
 		}
 		return pair{}, false
 	}
+	// whole-value reads of a value bundle (an argument, a returned value, an
+	// element of a literal, an operand): the literal built from its fields
+	recon := map[*ast.Ident]bool{}
+	reconstructible := func(b *bvar, parent ast.Node, id *ast.Ident) bool {
+		if b.ptr || b.cell == nil || b.cell.typ == nil {
+			return false
+		}
+		switch p := parent.(type) {
+		case *ast.CallExpr:
+			for _, a := range p.Args {
+				if a == ast.Expr(id) {
+					return !p.Ellipsis.IsValid()
+				}
+			}
+		case *ast.ReturnStmt, *ast.CompositeLit, *ast.SendStmt, *ast.BinaryExpr, *ast.ParenExpr:
+			return true
+		case *ast.KeyValueExpr:
+			return p.Value == ast.Expr(id)
+		}
+		return false
+	}
 	var stack []ast.Node
 	ast.Inspect(s.fn.Body, func(n ast.Node) bool {
 		if n == nil {
@@ -448,6 +469,7 @@ func (s *sroa) run() int {
 			return true
 		}
 		parent := stack[len(stack)-2]
+		viaAddr := false
 		// the target of a whole-value flow: a definition of another bundle name, the one assignment of a late pointer, an assignment to a value bundle, or the blank
 		flowsInto := func(pr pair) string {
 			if !inList[pr.stmt] {
@@ -483,6 +505,10 @@ func (s *sroa) run() int {
 				}
 			}
 			if o == nil || o.bad != "" {
+				if !b.ptr && b.cell != nil && b.cell.typ != nil && !viaAddr {
+					recon[id] = true // read as a whole: the literal of its fields
+					return ""
+				}
 				return "flows into a variable that stays"
 			}
 			return ""
@@ -543,9 +569,11 @@ func (s *sroa) run() int {
 				b.bad = "address taken"
 				return true
 			}
+			viaAddr = true
 			if why := flowsInto(pr); why != "" {
 				b.bad = why
 			}
+			viaAddr = false
 		case *ast.AssignStmt, *ast.ValueSpec:
 			if as, ok := p.(*ast.AssignStmt); ok {
 				isLhs := false
@@ -587,7 +615,11 @@ func (s *sroa) run() int {
 				b.bad = why
 			}
 		default:
-			b.bad = fmt.Sprintf("used as a whole (%T)", parent)
+			if reconstructible(b, parent, id) {
+				recon[id] = true
+			} else {
+				b.bad = fmt.Sprintf("used as a whole (%T)", parent)
+			}
 		}
 		return true
 	})
@@ -917,6 +949,18 @@ func (s *sroa) run() int {
 	// then every field selector, wherever it ended up, then the hoisted declarations
 	defer func() {
 		astutil.Apply(s.fn.Body, func(c *astutil.Cursor) bool {
+			if id, ok := c.Node().(*ast.Ident); ok && recon[id] {
+				if v, _ := info.Uses[id].(*types.Var); v != nil {
+					if b := good(v); b != nil {
+						cl := &ast.CompositeLit{Type: s.pl.clone(b.cell.typ).(ast.Expr)}
+						for i := 0; i < b.cell.st.NumFields(); i++ {
+							cl.Elts = append(cl.Elts, &ast.KeyValueExpr{Key: ast.NewIdent(b.cell.st.Field(i).Name()), Value: name(b.cell, i)})
+						}
+						c.Replace(cl)
+						return false
+					}
+				}
+			}
 			if x, ok := c.Node().(*ast.SelectorExpr); ok {
 				if id, ok := x.X.(*ast.Ident); ok {
 					if v, _ := info.Uses[id].(*types.Var); v != nil {
